@@ -33,6 +33,10 @@ def run(rep, tier, seed, model_ok):
     cases = parsechk.entries_campaign(rep, rng, n, {"stmt", "plain", "blank", "stmt", "comment"}, label="canonical",
                                       finding_classifier=classify, model_ok=model_ok)
     cases += parsechk.entries_campaign(rep, rng, n // 3, {"stmt"}, label="statements only", model_ok=model_ok, n_items=3)
+    # canonical statements that FOLLOW statements under a directive: what a directive did to one statement must
+    # not leak into the next
+    cases += parsechk.entries_campaign(rep, rng, n // 3, {"stmt", "stmt", "directive", "blank"}, label="after directives",
+                                       model_ok=model_ok)
     parsechk.binary_campaign(rep, cases, limit=12 if tier == "quick" else 80)
     known_findings(rep)
     rep.assumptions += ["'simple key-values' = values that start with an identifier, a string literal or an unsigned number "
